@@ -11,13 +11,14 @@ from . import printer as P
 # ----------------------------------------------------------------------------- generation
 
 KIND_PROFILES = {
-    'mixed': [('request', 14), ('event', 14), ('request_new', 10), ('event_new', 8), ('mention', 10),
-              ('destroy', 9), ('delete_id', 9), ('churn', 8), ('global', 6), ('bind', 8), ('sync', 2),
-              ('done', 2)],
+    'mixed': [('request', 14), ('event', 14), ('request_new', 10), ('event_new', 10), ('mention', 10),
+              ('destroy', 9), ('delete_id', 9), ('churn', 8), ('global', 5), ('bind', 6), ('sync', 2),
+              ('done', 2), ('bind_synth', 6), ('destroy_server', 5)],
     'churn': [('churn', 50), ('destroy', 10), ('delete_id', 10), ('request_new', 10), ('event_new', 8),
               ('bind', 5), ('global', 3), ('mention', 4)],
-    'objects': [('request_new', 18), ('event_new', 18), ('destroy', 18), ('delete_id', 12), ('mention', 14),
-                ('bind', 10), ('global', 5), ('churn', 5)],
+    'objects': [('request_new', 14), ('event_new', 22), ('destroy', 12), ('delete_id', 12), ('mention', 12),
+                ('bind', 5), ('global', 3), ('churn', 5), ('bind_synth', 10), ('destroy_server', 14)],
+    'longchurn': [('churn', 90), ('delete_id', 5), ('destroy', 3), ('request_new', 2)],
 }
 
 
@@ -251,7 +252,7 @@ def strip_string_args(text):
     n = len(text)
     while i < n:
         ch = text[i]
-        if ch in '\'"' and i > 0 and text[i - 1] in '=( ':
+        if ch in '\'"' and (i == 0 or text[i - 1] in '=( '):
             # python repr string: find the matching quote honouring backslashes
             q = ch
             j = i + 1
